@@ -1,5 +1,6 @@
 import GffProofs.Props.C12
 import GffProofs.Props.C12b
+import GffProofs.Gen.BinsEq
 open GffProofs.C12
 #print axioms binOne_isInt
 #print axioms bins_out_of_range_one
@@ -22,3 +23,8 @@ open GffProofs.C12
 #print axioms row_ignores_bin
 #print axioms row_bin_follows_coords
 #print axioms row_bin_some
+#print axioms GffProofs.Gen.bins_eq_model
+#print axioms GffProofs.Gen.gen_one_isInt
+#print axioms GffProofs.Gen.gen_bin_sound_overlap
+#print axioms GffProofs.Gen.gen_bin_sound_within
+#print axioms GffProofs.Gen.gen_out_of_range
